@@ -120,6 +120,8 @@ var (
 	c12eLegacyLookup   = c12E("deprecated/compactindex.DB.Lookup")
 	c12eLegacy36Open   = c12E("deprecated/compactindex36.Open")
 	c12eLegacy36Lookup = c12E("deprecated/compactindex36.DB.Lookup")
+	c12eLegacyLoad     = c12E("deprecated/compactindex.Bucket.Load")
+	c12eLegacy36Load   = c12E("deprecated/compactindex36.Bucket.Load")
 
 	c12eBuckNew    = c12E("bucketteer.NewReader")
 	c12eBuckHas    = c12E("bucketteer.Reader.Has")
@@ -1045,6 +1047,15 @@ func (w *c12World) indexFamilies(dir string, thorough bool) []*c12Fam {
 					x.SeedOK(found, "legacy Lookup of every stored key")
 					x.Guard(c12eLegacyLookup, func() error { db.Prefetch(false); _, err := db.Lookup(absentCid.Bytes()); return err })
 					x.Guard(c12eLegacyLookup, func() error { db.Prefetch(true); _, err := db.Lookup(keys[0]); db.Prefetch(false); return err })
+					x.Guard(c12eLegacyLoad, func() error {
+						db.Prefetch(false)
+						b, err := db.LookupBucket(keys[0])
+						if err != nil {
+							return err
+						}
+						_, err = b.Load(0)
+						return err
+					})
 				}
 				var r *indexes.Deprecated_CidToOffset_Reader
 				ok = x.Guard(c12eOpenDepCid, func() error {
@@ -1098,6 +1109,15 @@ func (w *c12World) indexFamilies(dir string, thorough bool) []*c12Fam {
 					x.SeedOK(found, "legacy36 Lookup of every stored key")
 					x.Guard(c12eLegacy36Lookup, func() error { db.Prefetch(false); _, err := db.Lookup(indexes.Uint64tob(1)); return err })
 					x.Guard(c12eLegacy36Lookup, func() error { db.Prefetch(true); _, err := db.Lookup(keys[0]); db.Prefetch(false); return err })
+					x.Guard(c12eLegacy36Load, func() error {
+						db.Prefetch(false)
+						b, err := db.LookupBucket(keys[0])
+						if err != nil {
+							return err
+						}
+						_, err = b.Load(0)
+						return err
+					})
 				}
 				var r *indexes.SlotToCid_Reader
 				ok = x.Guard(c12eOpenSlotToCid, func() error { v, err := indexes.OpenWithReader_SlotToCid(c12Reader(in)); r = v; return err })
